@@ -24,6 +24,97 @@ Definition qsqrt (x : Q) : Q :=
     Qred (qscale (- s) (inject_Z (Z.sqrt (Qfloor (qscale (2 * s) x))))).
 Definition qnrm2 (v : list Q) : Q := qsqrt (fold_right (fun x acc => Qred (x * x + acc)%Q) 0%Q v).
 
+(* ---------------------------------------------------------------- fixed-point carrier for long runs
+   z : Z stands for z / 2^128; every product / quotient is rounded down to that grid (relative accuracy ~1e-22 or better at the
+   magnitudes that occur, far below the tolerance).  The same polymorphic model functions are executed at this carrier
+   where exact rationals would grow without bound (100 inner HALS sweeps per mode). *)
+Definition FXS : Z := 128%Z.
+Definition Fxops : fops Z :=
+  mkF 0%Z (2 ^ FXS)%Z Z.add Z.sub (fun a b => Z.shiftr (a * b) FXS)
+      (fun a b => if (b =? 0)%Z then 0%Z else (Z.shiftl a FXS / b)%Z) Z.opp Z.leb.
+Definition q2fx (q : Q) : Z := Qfloor (q * inject_Z (2 ^ FXS))%Q.
+Definition fx2q (z : Z) : Q := Qred (Qmake z (2 ^ 128)%positive).
+Definition fxnrm2 (v : list Z) : Z :=
+  Z.sqrt (Z.shiftl (fold_right (fun x acc => (Z.shiftr (x * x) FXS + acc)%Z) 0%Z v) FXS).
+Definition zmat := list (list Z).
+Definition m2fx (M : qmat) : zmat := map (map q2fx) M.
+Definition m2q (M : zmat) : qmat := map (map fx2q) M.
+Definition t2fx (T : tensor Q) : tensor Z := mk (shape T) (map q2fx (data T)).
+Definition o2fx (o : option Q) : option Z := match o with Some x => Some (q2fx x) | None => None end.
+
+(* complete non_negative_parafac_hals run (every updated mode is a non-negative mode: no LAPACK solve is reached) *)
+Definition halscp_fx (T : tensor Q) (w : list Q) (Fs : list qmat) (nn : list nat) (sps : list (option Q)) (nm : bool)
+           (modes : list nat) (n : nat) (tol : Q) : list Q * list qmat :=
+  let T' := t2fx T in let sps' := map o2fx sps in
+  let r := non_negative_parafac_hals Fxops fxnrm2 (fun _ => cp_hals_utm Fxops T') (fun _ => cp_hals_utu Fxops) (fun _ M => M)
+             (fun _ => cp_hals_inner Fxops T' sps' (q2fx tol)) (fun _ _ => false) nn sps' nm modes n
+             (initialize_cp_user_norm Fxops fxnrm2 (map q2fx w) (map m2fx Fs) nm) in
+  (map fx2q (fst r), map m2q (snd r)).
+(* complete non_negative_tucker_hals run with the FISTA core (one step size per run: n <= 1) *)
+Definition tkhals_fx (T core : tensor Q) (Fs : list qmat) (sps : list (option Q)) (csp : Q) (nm : bool) (modes : list nat)
+           (feps lr : Q) (betas : list Q) (n : nat) (tol : Q) : list Q * list qmat :=
+  let T' := t2fx T in let sps' := map o2fx sps in
+  let r := non_negative_tucker_hals Fxops fxnrm2 Fista (q2fx feps) (fun _ => tk_hals_utm Fxops T') (fun _ => tk_hals_utu Fxops)
+             (fun _ => tk_hals_inner Fxops T' sps' (q2fx tol)) sps' (fun _ _ => q2fx lr) (q2fx csp) (fun _ => tk_core_lin Fxops)
+             (fun _ => tk_mu_numc Fxops T') (fun _ _ => map q2fx betas) (fun _ _ _ x => x) (fun _ _ => 0%nat) (fun _ _ => false) nm modes n
+             (t2fx core, map m2fx Fs) in
+  (map fx2q (data (fst r)), map m2q (snd r)).
+(* executed instance of tl.solve for the passive blocks: Gaussian elimination with the largest pivot of the column, over any carrier
+   (exact over Q; None = singular).  The generator only emits well-conditioned systems (cond(UtU) <= 1e6, checked with numpy). *)
+Section Gauss.
+Context {F : Type} (Op : fops F).
+Fixpoint pick_max (best : list F) (rest : list (list F)) (rows : list (list F)) : list F * list (list F) :=
+  match rows with
+  | [] => (best, rest)
+  | r :: rows' => if fltb Op (fabs Op (hd (f0 Op) best)) (fabs Op (hd (f0 Op) r)) then pick_max r (best :: rest) rows'
+                  else pick_max best (r :: rest) rows'
+  end.
+Fixpoint gauss (fuel : nat) (rows : list (list F)) : option (list F) :=
+  match fuel, rows with
+  | _, [] => Some []
+  | O, _ => None
+  | S f, r0 :: rows' =>
+    let '(pr, rest) := pick_max r0 [] rows' in
+    let p := hd (f0 Op) pr in
+    if feqb Op p (f0 Op) then None else
+    let prn := map (fun x => fdiv Op x p) pr in
+    let rest' := map (fun r => let c := hd (f0 Op) r in tl (map2 (fun x y => fsub Op x (fmul Op c y)) r prn)) rest in
+    match gauss f rest' with
+    | None => None
+    | Some xs => let tlp := tl prn in
+                 Some (fsub Op (last tlp (f0 Op)) (fsum Op (map2 (fmul Op) (removelast tlp) xs)) :: xs)
+    end
+  end.
+Definition gsolve (A : list (list F)) (b : list F) : option (list F) :=
+  gauss (length A) (map2 (fun row bi => row ++ [bi]) A b).
+(* pseudo_inverse_kr = kronecker([F_k^T F_k]) and the support vector of the first active-set iteration, as an instance of the skeleton's oracle *)
+Definition tk_kron_mat (st : @tk_state F) : list (list F) :=
+  let '(core, Fs) := st in
+  let Gs := map (fun M => gram Op (ncols M) M) Fs in
+  let n := prod (shape core) in
+  map (fun q => map (fun p => tk_kron_entry Op Gs None (unravel (shape core) q) (unravel (shape core) p)) (seq 0 n)) (seq 0 n).
+Definition aset_support (T : tensor F) (tol : F) (st : @tk_state F) (x : list F) : list F :=
+  let Utm := tk_mu_numc Op T st in let UtU := tk_kron_mat st in
+  match as_body Op gsolve Utm UtU true x (as_gradient Op Utm UtU x) (posmask Op x) (negmask (posmask Op x)) with
+  | Some (s2, _, _) => s2
+  | None => x
+  end.
+End Gauss.
+
+(* complete non_negative_tucker_hals run with the active-set core, one outer sweep (active_set_nnls gets n_iter_max = 1) *)
+Definition tkaset_fx (T core : tensor Q) (Fs : list qmat) (sps : list (option Q)) (nm : bool) (modes : list nat) (n : nat) (tol atol : Q)
+  : list Q * list qmat :=
+  let T' := t2fx T in let sps' := map o2fx sps in
+  let r := non_negative_tucker_hals Fxops fxnrm2 ActiveSet 0%Z (fun _ => tk_hals_utm Fxops T') (fun _ => tk_hals_utu Fxops)
+             (fun _ => tk_hals_inner Fxops T' sps' (q2fx tol)) sps' (fun _ _ => 0%Z) 0%Z (fun _ _ x => x)
+             (fun _ _ => []) (fun _ _ => []) (fun _ st _ x => aset_support Fxops T' (q2fx atol) st x) (fun _ _ => n) (fun _ _ => false) nm modes n
+             (t2fx core, map m2fx Fs) in
+  (map fx2q (data (fst r)), map m2q (snd r)).
+
+Definition pair_close (a b : list Q * list qmat) : bool :=
+  q_list_close (1 # 100000000000000000000) (1 # 1000000000000000) (fst a) (fst b) &&
+  qmats_close (1 # 100000000000000000000) (1 # 1000000000000000) (snd a) (snd b).
+
 Inductive op :=
 (* non_negative_parafac(tensor, init=(w, Fs), n_iter_max=n, tol=0, normalize_factors=nm, fixed_modes) ; eps = tl.eps(dtype) *)
 | OMuCp (eps : Q) (T : tensor Q) (w : list Q) (Fs : list qmat) (nm : bool) (modes : list nat) (n : nat)
@@ -39,6 +130,15 @@ Inductive op :=
 | OMuTk (eps : Q) (X N D : qmat)
 (* non_negative_tucker(tensor, rank, init=(core, Fs), n_iter_max=n, normalize_factors=nm): complete runs, eps = 10e-12 *)
 | OTkMu (eps : Q) (T core : tensor Q) (Fs : list qmat) (nm : bool) (n : nat)
+(* non_negative_parafac_hals(tensor, rank, init=(w, Fs), n_iter_max=n, tol=0, nn_modes=nn, sparsity_coefficients, normalize_factors,
+   fixed_modes): complete runs incl. the inner stopping rule (inner tol) *)
+| OHalsCp (T : tensor Q) (w : list Q) (Fs : list qmat) (nn : list nat) (sps : list (option Q)) (nm : bool) (modes : list nat) (n : nat) (tol : Q)
+(* non_negative_tucker_hals(tensor, rank, init=(core, Fs), n_iter_max=n<=1, algorithm='fista', ...): complete runs; lr = recorded step size *)
+| OTkHals (T core : tensor Q) (Fs : list qmat) (sps : list (option Q)) (csp : Q) (nm : bool) (modes : list nat) (feps lr : Q) (betas : list Q) (n : nat) (tol : Q)
+(* non_negative_tucker_hals(..., algorithm='active_set', n_iter_max=n<=1): complete runs, passive-block solves by exact-style elimination *)
+| OTkAset (T core : tensor Q) (Fs : list qmat) (sps : list (option Q)) (nm : bool) (modes : list nat) (n : nat) (tol : Q)
+(* active_set_nnls(Utm, UtU, x=x0, n_iter_max=n) against the statement-by-statement transcription, exact rationals *)
+| OAset (Utm : list Q) (UtU : qmat) (x0 : list Q) (n : nat) (tol : Q)
 (* _BroThesisLineSearch.line_step extrapolation + clipping *)
 | OLine (nn : list nat) (jump : Q) (last cur : list qmat).
 
@@ -78,6 +178,21 @@ Definition run (o : op) : out :=
       let r := non_negative_tucker Qops qnrm2 eps (fun _ => tk_mu_num Qops T) (fun _ => tk_mu_den Qops)
                                    (fun _ => tk_mu_numc Qops T) (fun _ => tk_mu_denc Qops) (fun _ _ => false) nm (length Fs) n (core, Fs) in
       OutMats (data (fst r)) (snd r)
+  | OHalsCp T w Fs nn sps nm modes n tol =>
+      (* the stopping decisions must not depend on a 1e-6 relative change of the tolerance, else the case is ill-conditioned *)
+      let a := halscp_fx T w Fs nn sps nm modes n (tol * (999999 # 1000000)) in
+      let b := halscp_fx T w Fs nn sps nm modes n (tol * (1000001 # 1000000)) in
+      if pair_close a b then OutMats (fst a) (snd a) else OutSkip
+  | OTkHals T core Fs sps csp nm modes feps lr betas n tol =>
+      let a := tkhals_fx T core Fs sps csp nm modes feps lr betas n (tol * (999999 # 1000000)) in
+      let b := tkhals_fx T core Fs sps csp nm modes feps lr betas n (tol * (1000001 # 1000000)) in
+      if pair_close a b then OutMats (fst a) (snd a) else OutSkip
+  | OTkAset T core Fs sps nm modes n tol =>
+      let a := tkaset_fx T core Fs sps nm modes n (tol * (999999 # 1000000)) (1 # 10000000) in
+      let b := tkaset_fx T core Fs sps nm modes n (tol * (1000001 # 1000000)) (1 # 10000000) in
+      if pair_close a b then OutMats (fst a) (snd a) else OutSkip
+  | OAset Utm UtU x0 n tol =>
+      match active_set_nnls Qops (gsolve Qops) Utm UtU tol x0 n with Some x => OutMats x [] | None => OutMats [] [[[]]] end
   | OLine nn jump last cur => OutMats [] (line_step Qops nn jump last cur)
   end.
 
